@@ -125,9 +125,15 @@ Then(a, b) == Res(b.r, b.rb, a.ev \o b.ev, a.q \o b.q, a.ref \o b.ref)
 \* MergeRemoteState (membership part).  pp = [lt, ent] with ent[x] = [p, lt, left]:
 \* p = 1 iff x is in StatusLTimes, left = 1 iff x is in LeftMembers.  Left members first, each as a
 \* leave intent one past its status time; the others as join intents.  Re-broadcast results dropped.
-RECURSIVE MergeLefts(_, _, _), MergeJoins(_, _, _)
+\* LeftMembers is processed in the order the sender listed it (pp.lo when the record carries it, else by name)
+RECURSIVE MergeLefts(_, _, _), MergeJoins(_, _, _), MergeLeftSeq(_, _, _)
+MergeLeftSeq(res, pp, lo) ==
+  IF lo = <<>> THEN res
+  ELSE LET x == Head(lo) IN
+       MergeLeftSeq(Then(res, HLeaveIntent(res.r, x, (IF pp.ent[x].p = 1 THEN pp.ent[x].lt ELSE 0) + 1, 0)), pp, Tail(lo))
 MergeLefts(res, pp, x) ==
-  IF x >= NN THEN res
+  IF "lo" \in DOMAIN pp THEN MergeLeftSeq(res, pp, pp.lo)
+  ELSE IF x >= NN THEN res
   ELSE IF pp.ent[x].left = 1
          THEN MergeLefts(Then(res, HLeaveIntent(res.r, x, (IF pp.ent[x].p = 1 THEN pp.ent[x].lt ELSE 0) + 1, 0)), pp, x + 1)
          ELSE MergeLefts(res, pp, x + 1)
